@@ -12,7 +12,7 @@ import re
 from rustlex import mask, match_close, item_end, skip_attrs_and_docs, split_top
 
 CORE_MODS = ['module', 'ecl', 'version', 'hardcode', 'compact', 'encode',
-             'polynomials', 'default', 'datamasking', 'placement', 'score', 'qr']
+             'polynomials', 'default', 'datamasking', 'placement', 'score', 'qr', 'helpers']
 
 
 class Unsupported(Exception):
@@ -28,11 +28,11 @@ DROP_ATTRS = [
     r'#\[cfg\(any\(test, feature = "svg", feature = "image", debug_assertions\)\)\]',
     r'#\[cfg\(debug_assertions\)\]',
     r'#\[cfg\(feature = "svg"\)\]',
+    r'#\[cfg\(not\(feature = "wasm-bindgen"\)\)\]',
 ]
 DROP_ITEM_ATTRS = [
     r'#\[cfg\(test\)\]',
     r'#\[cfg\(target_arch = "wasm32"\)\]',
-    r'#\[cfg\(not\(feature = "wasm-bindgen"\)\)\]',
     r'#\[cfg\(feature = "wasm-bindgen"\)\]',
     r'#\[cfg\(all\(target_arch = "wasm32", feature = "wasm-bindgen"\)\)\]',
 ]
@@ -62,8 +62,69 @@ def _drop_items(src, pat, log, what):
         hdr = skip_attrs_and_docs(src, msk, m.start())
         end = item_end(msk, hdr)
         first = src[hdr:min(end, hdr + 60)].split('\n')[0].strip()
+        if re.match(r'(pub(\([a-z]+\))?\s+)?use\b', first) and src[end:end + 1] == ';':
+            end += 1   # `use a::{b, c};` — the item ends at the semicolon, not at the closing brace
         log.append('drop %s: %s' % (what, first))
         src = src[:ls] + src[end:]
+
+
+def _drop_println_fns(src, log):
+    """IO1: a function whose body writes to stdout (`println!`/`print!`) is dropped (terminal I/O has no contract)."""
+    while True:
+        msk = mask(src)
+        hit = None
+        for name, kw, bo, bc in find_fns(src, msk):
+            if re.search(r'\b(?:println|print|eprintln|eprint)!', msk[bo:bc]):
+                hit = (name, kw, bc)
+                break
+        if not hit:
+            return src
+        name, kw, bc = hit
+        st = item_start(src, kw)
+        ls = src.rfind('\n', 0, st) + 1
+        log.append('IO1 drop fn %s (body uses println!)' % name)
+        src = src[:ls] + src[bc + 1:]
+
+
+def fmt_rewrites(src, log):
+    """F1: `format!("<lit>")` whose format string consists of inline `{IDENT}` placeholders and literal characters only
+    becomes a call of a generated helper `__fmt_K(IDENT, ..)` (external_body, real `format!` inside) with the ASSUMED
+    contract `r@ == <the characters in order>`, every placeholder being a `char` (Display of a char is that char)."""
+    helpers = []
+    k = 0
+    while True:
+        msk = mask(src)
+        m = re.search(r'\bformat!\(', msk)
+        if not m:
+            break
+        o = m.end() - 1
+        c = match_close(msk, o)
+        arg = src[o + 1:c].strip()
+        mm = re.fullmatch(r'"((?:[^"\\{}]|\\[nt\\"]|\{\w+\})*)"', arg)
+        if not mm:
+            log.append('UNSUPPORTED format! shape: %s' % arg[:60])
+            src = src[:m.start()] + '/*@unsupported*/ __unsupported_format()' + src[c + 1:]
+            continue
+        parts = re.findall(r'\{(\w+)\}|(\\.|[^\\{}])', mm.group(1))
+        args, elems, fmt = [], [], ''
+        for ident, lit in parts:
+            if ident:
+                a = 'a%d' % len(args)
+                args.append(ident)
+                elems.append(a)
+                fmt += '{%s}' % a
+            else:
+                elems.append("'%s'" % (lit if lit != "'" else "\\'"))
+                fmt += lit
+        name = '__fmt_%d' % k
+        k += 1
+        helpers.append('#[verifier::external_body]\nfn %s(%s) -> (r: String)\n    ensures r@ == seq![%s],\n{ format!("%s") }\n'
+                       % (name, ', '.join('a%d: char' % i for i in range(len(args))), ', '.join(elems), fmt))
+        src = src[:m.start()] + '%s(%s)' % (name, ', '.join(args)) + src[c + 1:]
+        log.append('F1 format!(%s) -> %s(%s) [assumed: result is exactly these characters]' % (arg, name, ', '.join(args)))
+    if helpers:
+        src = src.rstrip('\n') + '\n\n// ---- F1 helpers (generated)\n' + '\n'.join(helpers)
+    return src
 
 
 def apply_drops(src, log):
@@ -73,6 +134,7 @@ def apply_drops(src, log):
     for a in DROP_ITEM_ATTRS:
         src = _drop_items(src, a, log, 'cfg-gated item')
     src = _drop_items(src, DROP_IMPLS, log, 'fmt/Error impl')
+    src = _drop_println_fns(src, log)
     for a in DROP_ATTRS:
         src, n = re.subn(r'[ \t]*' + a + r'[ \t]*\n?', '', src)
         if n:
@@ -518,6 +580,7 @@ def extract_module(path, log):
     src = apply_drops(src, log)
     src = hoist_nested(src, log)
     src = misc_rewrites(src, log)
+    src = fmt_rewrites(src, log)
     src = rewrite_loops(src, log)
     src = sep_blocks(src, log)
     src = rename_self_named_params(src, log)
